@@ -55,6 +55,11 @@ partial def valOf : Sexp → Option Val
   | .list [.atom "e", k, v] => do let k' ← valOf k; let v' ← valOf v; pure (.entry k' v')
   | .list [.atom "sens", v] => (valOf v).map .sensitive
   | .list [.atom "t", t] => (tyOf t).map .typ
+  | .list [.atom "ts", n] => do let i ← n.int?; if intOk i then some (.timespan i) else none
+  | .list [.atom "tm", s, n] => do
+      let a ← s.int?; let b ← n.int?
+      -- time.Unix normalises other nanosecond values; the harness only sends normalised ones
+      if intOk a && 0 ≤ b && b < 1000000000 then some (.timestamp a b) else none
   | _ => none
 
 def hexB (bs : Bytes) : String := "x" ++ hexOfBytes bs
@@ -84,6 +89,8 @@ partial def valStr : Val → String
   | .entry k v => "(e " ++ valStr k ++ " " ++ valStr v ++ ")"
   | .sensitive v => "(sens " ++ valStr v ++ ")"
   | .typ t => "(t " ++ tyStr t ++ ")"
+  | .timespan n => s!"(ts {n})"
+  | .timestamp a b => s!"(tm {a} {b})"
 
 def invalidKey : String := "reported PCORE_INVALID_MAP_KEY"
 
